@@ -18,6 +18,9 @@ def ensure_repo_on_path():
     return src
 
 
+SHARED_INDEX = SourceIndex()   # parsed once per process (pre-loaded before forking)
+
+
 class G:
     """Generator handle passed to `inputs`: wraps the active path context."""
     def __init__(self, ctx):
@@ -399,7 +402,7 @@ def run_contract(c: Contract, timeout_ms=10000, max_paths=20000, root=None,
     res = TargetResult(c.id)
     res.pending = []
     t0 = time.time()
-    src_index = SourceIndex()
+    src_index = SHARED_INDEX
     work = [tuple(p) for p in prefixes]
     tmo = c.timeout_ms or timeout_ms
     while work:
